@@ -651,7 +651,7 @@ def aggregate(prop, tier, seed, results, wall, build_s, violations, notes):
             diagnostics=dict(counts=diags, names={k: sorted(v)[:20] for k, v in diag_names.items()},
                              note="observations that are not violations by themselves (DESIGN 2.4)"),
             fault_fired=faults, fault_kinds_armed_but_never_reached=(
-                ["condvar_spurious_wakeup", "condvar_timeout", "lock_blocked"] if prop == "C14" and not any(k.startswith("condvar") for k in faults) else []),
+                ["condvar_spurious_wakeup", "condvar_timeout", "condvar_notify_one_out_of_order", "lock_blocked"] if prop == "C14" and not any(k.startswith("condvar") for k in faults) else []),
             probes=probes, probes_at_zero=zero_probes, operations=ops,
             runs_by_flavour=by_flavour, **extra_distinct,
             maxima={k: v for k, v in agg.items() if k.startswith("max_")},
